@@ -782,6 +782,11 @@ class Repository:
                 contents = self._get_cached(path)
             except FileNotFoundError:
                 pass
+            else:
+                if self.props.hash_digest(contents) != expected_digest:
+                    # E.g. a partially written file left by an interrupted run
+                    logger.info('Cached copy of %s is corrupted, ignoring it', path)
+                    contents = None
 
         if contents is None:
             contents = self._download_threadsafe(path, loop=loop)
